@@ -364,6 +364,27 @@ def part_c(ctx, cfg, env, counts, out, thorough):
         Le = np.asarray(est.L, dtype=float)
         if Le.shape != out["Ls"].shape or not (np.abs(Le @ Le.T - out["Ls"] @ out["Ls"].T) <= 2 * out["dS"] + 4 * (n + 2) * n * U * np.linalg.norm(env["M"])).all():
             ctx.violation("C09|estimator|L", "the estimator's L L^T differs from compute_L(gp_type='fixed', landmarks=x)", replay(cfg, env, {}))
+    # the time-sensitive estimator computes its inducing points in a space whose time axis is rescaled by ls / ls_time and maps
+    # them back: with 'fixed' and n_landmarks >= n they must again be the cells (time column included), whatever ls_time is
+    if True:
+        counts["estimator_time"] = counts.get("estimator_time", 0) + 1
+        tcol = (np.arange(n) % 3).astype(float)[:, None] * 0.5
+        xt = np.hstack([x, tcol])
+        ls_time = [0.25, 3.0][(cfg["id"] // 4) % 2]
+        et = mellon.TimeSensitiveDensityEstimator(gp_type="fixed", n_landmarks=n + (cfg["id"] % 3), ls_time=ls_time, jitter=j)
+        rp = replay(cfg, env, {"estimator": "TimeSensitiveDensityEstimator", "ls_time": ls_time, "time_column": tcol[:, 0].tolist(),
+                               "call": "TimeSensitiveDensityEstimator(gp_type='fixed', n_landmarks=n + k, ls_time=ls_time, jitter=j).prepare_inference(hstack([x, t]))"})
+        try:
+            et.prepare_inference(xt)
+        except Exception as e:
+            ctx.violation("C09|estimator-time|%s" % type(e).__name__, "TimeSensitiveDensityEstimator(gp_type='fixed', n_landmarks>=n).prepare_inference raised %s: %s"
+                          % (type(e).__name__, str(e)[:150]), rp)
+            return
+        lmt = np.asarray(et.landmarks, dtype=float)
+        # x_t * f / f in binary64: two roundings
+        if lmt.shape != xt.shape or not (np.abs(lmt - xt) <= 4 * U * np.abs(xt)).all():
+            ctx.violation("C09|estimator-time|landmarks", "time-sensitive 'fixed' with n_landmarks >= n does not use the cells (with their time stamps) as inducing points",
+                          dict(rp, landmarks=lmt.tolist(), ls=float(np.asarray(et.ls))))
 
 
 # ------------------------------------------------------------------ Coq correspondence
